@@ -41,7 +41,7 @@ impl Part for AttrPlacement {
     }
     fn cases(&self, tier: Tier) -> usize {
         match tier {
-            Tier::Quick => 24_000,
+            Tier::Quick => 72_000,
             Tier::Thorough => 1_200_000,
         }
     }
@@ -456,7 +456,7 @@ impl E2Part for Params {
     }
     fn cases(&self, tier: Tier) -> usize {
         match tier {
-            Tier::Quick => 1_200,
+            Tier::Quick => 2_400,
             Tier::Thorough => 24_000,
         }
     }
